@@ -94,6 +94,12 @@ def cases(rec):
     yield 1000, 10, lin
     for D, dt in ((10, 3), (10, 2.5), (7, 10), (100, 0.7)):      # (no request at 0 or 1)
         yield D, dt, [0.25, 0.5]
+    # requested times within the matcher's tolerance of each other are merged: every one of them must still be
+    # matched by a target time -- also in chains longer than the tolerance and next to a grid time
+    for D, dt in ((1000, 7), (1000, 10), (300, 10)):
+        yield D, dt, [0.3, 0.1 + 0.2, 0.6, 0.6 + 5e-11, 0.6 + 9e-11]
+        yield D, dt, [0.3 + k * 0.8e-10 for k in range(6)] + [0.45 - 0.7e-10, 0.45, 0.45 + 0.7e-10]
+        yield D, dt, [0.3 + 0.5e-10, 0.3 + 1.2e-10, 0.3 + 1.9e-10, 0.7 - 1.1e-10, 0.7 - 0.4e-10]
     for D in list(range(1, 200)) + [250, 1000, 4000, 9973, 10000]:
         for dt in (0.1, 0.3, 0.7, 1.1, 1.3, 2.2, 10 / 3, 7.0, 10.0, 12345.0):
             if D / dt <= 40000:
